@@ -37,7 +37,17 @@ TRUSTED_BASE = [
 
 
 def lst(items):
-    return "[" + "; ".join(items) + "]"
+    """Coq list as nested cons (the [a; b; ...] notation costs over 1 ms per element to parse); long lists in chunks joined by ++"""
+    items = list(items)
+    if not items:
+        return "nil"
+    if len(items) > 120:
+        chunks = [lst(items[i:i + 120]) for i in range(0, len(items), 120)]
+        out = chunks[-1]
+        for c in reversed(chunks[:-1]):
+            out = "(%s ++ %s)" % (c, out)
+        return out
+    return "".join("(cons %s " % x for x in items) + "nil" + ")" * len(items)
 
 
 def t3(rows):
@@ -51,7 +61,7 @@ def to_case(o):
     if k == "hist":
         return "CHist hist0"
     if k == "conc":
-        return "CConc hist0 %s" % t3(o["c"])
+        return "CConc hist0 %s" % t3(sorted({tuple(x) for x in o["c"]}))
     if k == "modes":
         return "CModes %d %s" % (o["t"], t3(o["rows"]))
     if k == "fromos":
@@ -59,9 +69,9 @@ def to_case(o):
     if k == "mapseq":
         return "CMapSeq %s" % t3(o["h"])
     if k == "mapconc":
-        return "CMapConc %s %s" % (t3(o["h"]), t3(o["c"]))
+        return "CMapConc %s %s" % (t3(o["h"]), t3(sorted({tuple(x) for x in o["c"]})))
     if k == "fsconc":
-        return "CFsConc %s" % lst("(%s, %d)" % (coq_string(x["name"]), x["path"]) for x in (o["obs"] or []))
+        return "CFsConc %s" % lst("(%s, %d)" % (coq_string(n), p) for n, p in sorted({(x["name"], x["path"]) for x in (o["obs"] or [])}))
     raise ValueError(k)
 
 
@@ -123,8 +133,11 @@ def witness(o):
 
 def run(ctx):
     obs = []
-    for pkg, test, files in TESTS:
-        rc, out, o = ctx.gotest(pkg, test, files, timeout=1200)
+    from concurrent.futures import ThreadPoolExecutor
+    with ThreadPoolExecutor(max_workers=4) as ex:
+        futs = [ex.submit(ctx.gotest, pkg, test, files, None, 1200) for pkg, test, files in TESTS]
+        results = [f.result() for f in futs]
+    for (pkg, test, files), (rc, out, o) in zip(TESTS, results):
         m = CRASH.search(out)
         if rc != 0 and m and "VerifC20" in out:
             ctx.violation("C20:crash:%s" % pkg, "concurrent QID lookups crashed the process (%s)" % m.group(0),
